@@ -73,6 +73,78 @@ def gen_crit(rng, sp, item, p_foreign, p_none):
     return pairs
 
 
+def gen_tree(rng, leaf, depth, crit=True):
+    """a random criterion (crit=True) or operand term over the leaves leaf() hands out: every operand structure of the
+    term classes, including the operands nodes_ does not visit"""
+    sub = lambda c=False: gen_tree(rng, leaf, depth - 1, c)   # noqa: E731
+    if crit:
+        if depth <= 0:
+            return ["cmp", leaf(), leaf()]
+        k = rng.choice(["cmp", "cmp", "cmp", "and", "or", "between", "slice", "period", "in", "isnull", "notnull", "not", "bitand"])
+        if k == "cmp":
+            return ["cmp", sub(), sub()]
+        if k in ("and", "or"):
+            return [k, sub(True), sub(True)]
+        if k in ("between", "slice", "period"):
+            return [k, sub(), sub(), sub()]
+        if k == "in":
+            return ["in", sub(), [sub() for _ in range(rng.choice([1, 2, 3]))]]
+        if k == "bitand":
+            return ["cmp", ["bitand", sub(), sub()], sub()]
+        if k == "not":
+            return ["not", sub(True)]
+        return [k, sub()]
+    if depth <= 0:
+        return leaf() if rng.random() < 0.8 else ["c"]
+    k = rng.choice(["f", "f", "f", "c", "arith", "fn", "case", "neg", "attz", "over", "filter"])
+    if k == "f":
+        return leaf()
+    if k == "c":
+        return ["c"]
+    if k == "arith":
+        return ["arith", sub(), sub()]
+    if k == "fn":
+        return ["fn", [sub() for _ in range(rng.choice([1, 2, 3]))]]
+    if k == "case":
+        return ["case", [[sub(True), sub()] for _ in range(rng.choice([1, 2]))], sub() if rng.random() < 0.6 else None]
+    if k == "neg":
+        return ["neg", sub()]
+    if k == "attz":
+        return ["attz", leaf()]
+    if k == "over":
+        return ["over", [sub()], [leaf() for _ in range(rng.choice([0, 1, 2]))], [leaf() for _ in range(rng.choice([0, 1]))]]
+    return ["filter", [sub()], sub(True)]
+
+
+def gen_crit_tree(rng, sp, item, p_plant):
+    """a criterion over the statement's own sources; with probability p_plant ONE field, at a uniformly chosen operand
+    position, is moved to a foreign table / an undefined WITH query / a neighbouring sub-query"""
+    from .crit import positions
+    pool = known_sources(sp) + [item]
+
+    def leaf():
+        if rng.random() < 0.06:
+            return ["f", None, rng.choice(["id", "k"])]
+        return ["f", rng.choice(pool), rng.choice(["id", "k", "v"])]
+    t = gen_tree(rng, leaf, rng.choice([1, 2, 2, 3]))
+    leaves = positions(t)
+    if leaves and rng.random() < p_plant:
+        # spread over the position labels, not over the leaves (so that rare positions are hit as often as common ones)
+        labels = sorted({p for p, _ in leaves})
+        lab = rng.choice(labels)
+        _, lf = rng.choice([x for x in leaves if x[0] == lab])
+        r = rng.random()
+        if r < 0.6:
+            lf[1] = tab(rng, foreign=True)
+        elif r < 0.8:
+            lf[1] = ["alq", rng.choice(["w1", "w2", "w3", "w9"])]
+        elif lf[1] is not None and lf[1][0] == "sub":
+            lf[1] = sub_neighbours(rng, lf[1] if lf[1][1] is not None else sp._tagged(lf[1]))
+        else:
+            lf[1] = ["tab", rng.choice(NAMES), "s9", None]
+    return t
+
+
 def gen_rterm(rng, sp, depth, p_foreign):
     r = rng.random()
     own = []
@@ -194,6 +266,8 @@ def q_call(rng, sp, malformed):
                 return ["join", item, ["on", None], how]
             p_foreign = rng.choice([0.0, 0.0, 0.15, 0.4])
             p_none = rng.choice([0.0, 0.1, 0.3])
+            if rng.random() < 0.45:
+                return ["join", item, ["onx", gen_crit_tree(rng, sp, item, rng.choice([0.0, 0.5, 0.7]))], how]
             return ["join", item, ["on", gen_crit(rng, sp, item, p_foreign, p_none)], how]
         if q < 0.78:
             n = rng.choice([0, 1, 1, 2])
